@@ -275,7 +275,11 @@ Definition compile (cfg : config) (lines : list sline) (meta : pmeta) : cres :=
 
 (* CompileWarrior: lex, then scan / expand one FOR block per pass, parse, compile *)
 Definition max_for_passes : nat := 1000.
-Fixpoint pass_loop (n : nat) (toks : list token) : option (option (list token)) :=   (* Some None = error *)
+(* loadConstants(symbols, config): the four predefined names are (re)defined in the symbols
+   handed to the expander, so that FOR counts may use them *)
+Definition with_constants (cfg : config) (syms : symtab) : symtab :=
+  fold_left (fun m kv => sym_set (fst kv) (snd kv) m) (load_constants cfg) syms.
+Fixpoint pass_loop (cfg : config) (n : nat) (toks : list token) : option (option (list token)) :=   (* Some None = error *)
   match n with
   | O => Some None
   | S n' =>
@@ -284,10 +288,10 @@ Fixpoint pass_loop (n : nat) (toks : list token) : option (option (list token)) 
     | Some None => Some None
     | Some (Some (syms, for_seen)) =>
       if for_seen then
-        match for_expand toks syms with
+        match for_expand toks (with_constants cfg syms) with
         | None => None
         | Some None => None                      (* consumer would wait forever *)
-        | Some (Some r) => pass_loop n' (fr_tokens r)
+        | Some (Some r) => pass_loop cfg n' (fr_tokens r)
         end
       else Some (Some toks)
     end
@@ -297,7 +301,7 @@ Definition compile_warrior (cfg : config) (inp : text) : cres :=
   match lex_ascii inp with
   | None => COutOfFuel
   | Some toks =>
-    match pass_loop (S max_for_passes) toks with
+    match pass_loop cfg (S max_for_passes) toks with
     | None => COutOfFuel
     | Some None => CErr
     | Some (Some toks') =>
